@@ -24,7 +24,8 @@ V4 = "3f7f0c5f-5d54-4292-94ea-ec1e1952be0"
 MUST_REFUSE = {"ref-to-marking-flavour-name", "ref-to-extension-name", "unregistered-type", "unregistered-type+extdef-property-extension", "unregistered-type+extdef-toplevel-extension",
                "x-property", "unknown-property", "unregistered-extension", "unknown-hash", "non-vocabulary-hash", "ref-to-unregistered-type", "unregistered-member-type",
                "custom_properties-in-json", "custom-property-in-extdef-toplevel-object", "extension-key-names-object-type", "extension-key-names-observable-type",
-               "extension-key-names-marking-flavour", "unknown-hash-first", "non-vocabulary-hash-first", "ref-to-2.1-only-type", "extensions-claim-without-extension-mechanism"}
+               "extension-key-names-marking-flavour", "unknown-hash-first", "non-vocabulary-hash-first", "ref-to-2.1-only-type", "extensions-claim-without-extension-mechanism", "x-property-next-to-unregistered-property-extension", "x-property-next-to-unregistered-new-sdo",
+               "x-property-next-to-unregistered-x-toplevel-property-extension"}
 
 
 def sites(base, version, tkey):
@@ -90,6 +91,11 @@ def sites(base, version, tkey):
         # no extension mechanism on this class: 'extensions' (and whatever it claims to legitimise) is custom content
         out.append(("top-level", (), "extensions-claim-without-extension-mechanism",
                     lambda j: dict(j, foo_unknown=1, extensions={"extension-definition--" + V4 + "6": {"extension_type": "toplevel-property-extension"}})))
+    if version == "2.1" and "extensions" in c["properties"]:
+        # a custom top-level property next to an unregistered extension that is NOT a toplevel-property-extension: still custom
+        for et in ("property-extension", "new-sdo", "x-toplevel-property-extension"):
+            out.append(("top-level", (), "x-property-next-to-unregistered-" + et,
+                        lambda j, et=et: dict(j, x_foo="bar", extensions=dict(j.get("extensions") or {}, **{"extension-definition--" + V4 + "7": {"extension_type": et}}))))
     if c["properties"].get("objects", {}).get("kind") == "list" and isinstance(base.get("objects"), list):
         out.append(("bundle", ("objects",), "unregistered-member-type", lambda j: dict(j, objects=j["objects"] + [dict({"type": "x-unreg", "id": "x-unreg--" + V4 + "5", "created": "2016-05-12T08:17:27.000Z",
                                                                                                                           "modified": "2016-05-12T08:17:27.000Z", "foo": 1}, **({"spec_version": "2.1"} if version == "2.1" else {}))])))
